@@ -79,7 +79,7 @@ pub fn tracegen_only(prop: &str, seed: u64, runs: usize, only: Option<usize>) ->
                 prop,
                 run,
                 s,
-                Knobs { allow_random: true, p_reset: 0.12, big_consts: run % 3 == 0, max_virtuals: if run % 4 == 1 { 2 } else { 1 }, random_in_declares: run % 4 == 1, p_x: 0.05, p_c: 0.05, max_depth: 3, p_while: 0.04,
+                Knobs { allow_random: true, p_reset: if run % 4 == 1 { 0.2 } else { 0.12 }, big_consts: run % 3 == 0, max_virtuals: if run % 4 == 1 { 2 } else { 1 }, random_in_declares: run % 4 == 1, p_x: 0.05, p_c: 0.05, max_depth: 3, p_while: 0.04,
                         ..Knobs::control_flow() },
                 Opt::default(),
             ),
@@ -781,6 +781,16 @@ fn sched_run(prop: &str, run: usize, seed: u64) -> Vec<J> {
             }
         }
         constant_declares(&mut prog, &mut g.rng);
+        // now and then a row in the middle that cannot be evaluated (the iteration, static or dynamic, goes on after it)
+        if run % 10 == 4 {
+            let mut es = g.entries(&plan);
+            if let Some(first) = es.iter_mut().find(|e| e.width() == 1 && !matches!(e, Entry::C | Entry::X)) {
+                *first = Entry::Expr(Expr::bin("/", Expr::Num(1), Expr::Num(0)));
+            }
+            let id = g.row_id();
+            let at = g.rng.gen_range(g.k.vars.len() + g.k.max_depth + 1..=prog.len());
+            prog.insert(at, Stmt::Row { id, entries: es });
+        }
         // a static test: every name is assigned at top level before it is used, so nothing is read from the device
         let mut names: Vec<String> = g.k.vars.clone();
         for d in 0..=g.k.max_depth {
